@@ -74,6 +74,7 @@ def cases(tier, seed):
             for regime in ("interior", "oob"):
                 yield {"kind": "setter", "module": spec, "regime": regime, "custom": True, "seed": rnd.randrange(10**6)}
             yield {"kind": "sequence", "module": spec, "length": rnd.randint(3, 8), "seed": rnd.randrange(10**6)}
+            yield {"kind": "aliasing", "module": spec, "seed": rnd.randrange(10**6)}
         for pr in PRIORS:
             for variant in range(2):
                 yield {"kind": "prior", "prior": pr, "variant": variant, "seed": rnd.randrange(10**6)}
@@ -168,7 +169,7 @@ def run_case(case, ctx):
     from vf import util
 
     g = util.gen(case["seed"])
-    return {"constraint": _constraint, "setter": _setter, "sequence": _sequence, "prior": _prior, "registered": _registered, "ctor_priors": _ctor_priors}[case["kind"]](case, ctx, g)
+    return {"constraint": _constraint, "setter": _setter, "sequence": _sequence, "prior": _prior, "registered": _registered, "ctor_priors": _ctor_priors, "aliasing": _aliasing}[case["kind"]](case, ctx, g)
 
 
 def _constraint(case, ctx, g):
@@ -290,6 +291,65 @@ def _setter(case, ctx, g):
         except Exception as e:
             ctx.fail("setter_roundtrip_float", f"{cls} = python float raised {type(e).__name__}: {str(e)[:120]}", "raise", target=cls)
         check_invariant(ctx, module, f"setter {cls}")
+    ctx.cell({k: v_ for k, v_ in case.items() if k != "seed"})
+
+
+def _aliasing(case, ctx, g):
+    """a stored value is a COPY: changing the tensor that was assigned (or the parameter of the module it was taken from,
+    e.g. by an optimiser step) afterwards must not change what the module reads back"""
+    import torch
+
+    from vf import util
+
+    A, B = _build_module(case["module"]), _build_module(case["module"])
+    pa, pb = _constrained_pairs(A), _constrained_pairs(B)
+    if not pa:
+        ctx.reject("no constrained parameter with a public setter")
+        return
+    for (ma, pub, cons, raw), (mb, _, _, _) in zip(pa, pb):
+        tgt = f"{type(ma).__name__}.{pub}"
+        # (1) initialize(raw=tensor) then mutate the tensor
+        t = (getattr(ma, raw).detach().clone() + 0.3 * util.randn(g, *getattr(ma, raw).shape)).to(getattr(ma, raw).dtype)
+        try:
+            ma.initialize(**{raw: t})
+        except Exception:
+            continue
+        before = getattr(ma, pub).detach().clone()
+        t.add_(1.0)
+        ctx.expect("stored_value_is_a_copy", bool(torch.equal(getattr(ma, pub).detach(), before)), f"{tgt}: initialize({raw}=t) kept a reference to t", target=tgt, how="initialize_then_mutate_argument")
+        # (2) take another module's parameter, then step that module
+        try:
+            mb.initialize(**{raw: getattr(ma, raw)})
+        except Exception:
+            continue
+        before = getattr(mb, pub).detach().clone()
+        with torch.no_grad():
+            getattr(ma, raw).add_(0.7)  # what an optimiser step does
+        ctx.expect("stored_value_is_a_copy", bool(torch.equal(getattr(mb, pub).detach(), before)), f"{tgt}: initialised from another module's parameter, it now follows that module", target=tgt, how="initialize_from_other_module")
+        # (3) public setter with a tensor, then mutate the tensor
+        v = getattr(ma, pub).detach().clone()
+        try:
+            setattr(ma, pub, v)
+        except Exception:
+            continue
+        before = getattr(ma, pub).detach().clone()
+        v.mul_(1.5)
+        ctx.expect("stored_value_is_a_copy", bool(torch.equal(getattr(ma, pub).detach(), before)), f"{tgt}: the setter kept a reference to the assigned tensor", target=tgt, how="setter_then_mutate_argument")
+    # unconstrained parameters with a public setter (ConstantMean.constant, ...): same rule
+    for mod in A.modules():
+        for pname, par in list(mod._parameters.items()):
+            pub = pname[4:] if pname.startswith("raw_") else pname
+            prop = getattr(type(mod), pub, None)
+            if par is None or not isinstance(prop, property) or prop.fset is None or f"{pname}_constraint" in getattr(mod, "_constraints", {}):
+                continue
+            v = par.detach().clone() + 0.25
+            try:
+                setattr(mod, pub, v)
+            except Exception:
+                continue
+            before = getattr(mod, pub).detach().clone()
+            v.add_(3.0)
+            ctx.expect("stored_value_is_a_copy", bool(torch.equal(getattr(mod, pub).detach(), before)), f"{type(mod).__name__}.{pub}: the setter kept a reference to the assigned tensor", target=f"{type(mod).__name__}.{pub}", how="unconstrained_setter")
     ctx.cell({k: v_ for k, v_ in case.items() if k != "seed"})
 
 
@@ -535,6 +595,14 @@ def _prior(case, ctx, g):
         ctx.close("prior_log_prob", got - got[100], shape_ref - shape_ref[100], (1e-9, 1e-9), cls=cls)
         val = mp.quad(lambda t: mp.exp(float(pr.log_prob(torch.tensor([float(t)])))), [a - 12 * s, a, b, b + 12 * s])
         ctx.expect("prior_normalised", abs(float(val) - 1) < 1e-6, f"SmoothedBox integrates to {float(val):.8f}", prior=name)
+        # a value with d > 1 coordinates under scalar bounds (ARD lengthscales): the product density, i.e. the sum of the
+        # normalised one-dimensional log densities
+        for dd in (2, 3, 5):
+            X = a - 2 * s + (b - a + 4 * s) * util.rand(g, 7, dd)
+            with torch.no_grad():
+                joint = pr.log_prob(X)
+                single = torch.stack([pr.log_prob(X[:, j : j + 1]) for j in range(dd)], -1).sum(-1)
+            ctx.close("prior_log_prob", joint, single, (1e-9, 1e-9), cls=cls + ":vector")
     elif name == "HorseshoePrior":
         s = 1.0 if var == 0 else 0.1
         pr = P.HorseshoePrior(s)
